@@ -660,6 +660,10 @@ func (e *Env) call(x *CE, pos bool) CV {
 		if a.So == "Any" {
 			return e.tr(&CE{Op: "cast", Name: args[1].Name, Args: []*CE{args[0]}}, pos)
 		}
+		if a.So == "Int" && g.s.noDef == 0 && g.instGen == 0 && len(a.S) < 200 {
+			// an object a contract looks into is an object the universal facts about references apply to
+			g.addInstTermGen("Ref", a.S)
+		}
 		return g.cv(a.S, so, ty)
 	case "has":
 		m, k := argv(0), argv(1)
@@ -988,6 +992,14 @@ func (e *Env) quant(x *CE, pos bool) CV {
 		cs = append(cs, body(skolemNames()))
 		if len(x.Vars) == 1 {
 			ty, so := g.resolveType(x.Vars[0].Sort)
+			// also at the goal skolems of the same sort introduced at other nesting depths (a
+			// nested assumed fact must meet a goal quantifier that sits at the top level)
+			for d := 0; d < 4; d++ {
+				n := fmt.Sprintf("QK.%s.%d", sanitize(so), d)
+				if d != e.qd && g.s.decls[n] {
+					cs = append(cs, body(map[string]CV{x.Vars[0].Name: {T{n, smtSort(so)}, ty}}))
+				}
+			}
 			if so == "Int" {
 				for _, it := range e.insts {
 					cs = append(cs, body(map[string]CV{x.Vars[0].Name: {T{it, so}, ty}}))
@@ -1006,7 +1018,9 @@ func (e *Env) quant(x *CE, pos bool) CV {
 				ff := &forallFact{sort: so, guard: e.pc, outer: outer, inst: func(t string) string {
 					n := snap.with(map[string]CV{name: {T{t, smtSort(so)}, ty}})
 					n.qd = snap.qd + 1
-					n.noReg = true
+					// facts nested under a quantifier over references are remembered too (there
+					// are few objects to instantiate the outer one at); others are not
+					n.noReg = so != "Ref"
 					r := n.tr(x.Args[0], pos)
 					return r.S
 				}}
